@@ -165,14 +165,15 @@ func (c *ChunkComposer) RunLoop(reader io.Reader, cb OnCompleteMessage) error {
 			}
 		}
 
-		var neededSize uint32
-		if stream.header.MsgLen <= c.peerChunkSize {
-			neededSize = stream.header.MsgLen
-		} else {
-			neededSize = stream.header.MsgLen - stream.msg.Len()
-			if neededSize > c.peerChunkSize {
-				neededSize = c.peerChunkSize
-			}
+		// 本次chunk的包体大小 = min(message剩余未接收的大小, chunk size)。
+		// 注意，不能在MsgLen<=chunk size时直接使用MsgLen：chunk size可能在一个message接收到一半时被对端改大
+		// (Set Chunk Size在另一个chunk stream上，可以穿插在这个message的chunk之间)，此时已经接收的部分不能再算一次
+		if stream.msg.Len() > stream.header.MsgLen {
+			return base.NewErrRtmpShortBuffer(int(stream.header.MsgLen), int(stream.msg.Len()), "len of msg bigger than msg len of header")
+		}
+		neededSize := stream.header.MsgLen - stream.msg.Len()
+		if neededSize > c.peerChunkSize {
+			neededSize = c.peerChunkSize
 		}
 
 		if _, err := io.ReadFull(reader, stream.msg.buff.ReserveBytes(int(neededSize))); err != nil {
